@@ -23,10 +23,10 @@ macro_rules! implement_parse_function {
                     error.push_into(self.diagnostics);
                     Err(())
                 }
-                Ok(parse_value) => match self.diagnostics.has_errors() {
-                    false => Ok(parse_value),
-                    true => Err(()),
-                },
+                // The grammar's actions may have reported errors (a tag that's out of range, for instance), but the
+                // input was syntactically valid, and everything in it was parsed: we return what we parsed. Later
+                // phases are skipped because of the errors, but the `allow` attributes in the input still apply.
+                Ok(parse_value) => Ok(parse_value),
             }
         }
     };
